@@ -1,4 +1,4 @@
-//go:build c13hook
+//go:build verif
 
 package main
 
@@ -611,7 +611,7 @@ func runHookEngine(o *common.Options, rep *common.Report, newModel func() (*mode
 		return eval(hc)
 	}
 	r := common.NewRng(o.Seed ^ 0xc13)
-	n := o.Budget(1500, 30000)
+	n := o.Budget(1000, 30000)
 	for i := 0; i < n; i++ {
 		if err := eval(genHookCase(r.Fork(uint64(i)))); err != nil {
 			return err
